@@ -227,6 +227,24 @@ func svcURIs(g *gen, names string) (match []string, miss []string) {
 		}
 	}
 	miss = []string{"sip:nobody@other.invalid", "sip:other.invalid", "urn:service:unrelated", "tel:+19995550000", "sip:zed@nowhere.invalid:5060;transport=udp"}
+	// near misses: one component off a configured name. Whether they match (names are also unanchored patterns) is
+	// decided by the reference, not here.
+	for _, n := range strings.Split(names, ",") {
+		n = strings.TrimSpace(n)
+		switch {
+		case strings.HasPrefix(n, "^.*@svc"):
+			miss = append(miss, fmt.Sprintf("sip:%s@svc%d.example.org", g.user0(), g.intn(100)), "sip:"+g.user0()+"@svcx.example.com", fmt.Sprintf("sip:svc%d.example.com", g.intn(100)))
+		case strings.HasPrefix(n, "^sos"):
+			miss = append(miss, "sip:sos."+g.alnumL(3, 6)+"@corp.testx", "sip:sos."+g.alnumL(2, 4)+"7@corp.test", "sip:xsos."+g.alnumL(3, 6)+"@corp.test", "sip:sos@corp.test")
+		case strings.HasPrefix(n, "urn:"), strings.HasPrefix(n, "tel:"):
+			miss = append(miss, n+"0", n[:len(n)-1])
+		case strings.Contains(n, "@"):
+			at := strings.Index(n, "@")
+			miss = append(miss, "sip:"+g.user0()+"q@"+n[at+1:], "sip:"+n[:at]+"@sub."+n[at+1:], "sip:"+n[at+1:], "sip:"+n[:at]+"@"+n[at+1:]+".invalid")
+		default:
+			miss = append(miss, "sip:"+n+".invalid", "sip:"+g.user0()+"@"+n[1:], "sip:"+g.user0()+"@sub."+n)
+		}
+	}
 	return
 }
 
